@@ -246,9 +246,11 @@ class OutputFiles:
         else:
             # The writer gets file-like objects (proxied or possibly compressed),
             # from which the format cannot be inferred reliably
-            fileformat = file_format_from_path(paths[0])
-            if fileformat is not None:
-                kwargs["fileformat"] = fileformat
+            for path in paths:
+                fileformat = file_format_from_path(path)
+                if fileformat is not None:
+                    kwargs["fileformat"] = fileformat
+                    break
         for path in paths:
             assert path is not None
         # The same file(s) may be requested more than once, for example when
